@@ -309,6 +309,7 @@ func genTxn(t *rapid.T, m *Model, recent []uint32, cfg TxnCfg) TxnSpec {
 	deleting := map[uint32]bool{}
 	stored := map[uint32]bool{}
 	creating := map[string]bool{} // keys that a creating operation of this txn uses
+	failedCreate := map[int]bool{} // steps whose failing callback belongs to an insert (a row that is not created)
 	ctx := &txnGenCtx{lenMerged: map[string]bool{}}
 	rk := func(row uint32) string { return fmt.Sprintf("r%d", row) }
 	ik := func(step int) string { return fmt.Sprintf("i%d", step) }
@@ -384,6 +385,7 @@ func genTxn(t *rapid.T, m *Model, recent []uint32, cfg TxnCfg) TxnSpec {
 			st.Stores = genStoresCtx(t, m, cfg, 0, 4, "ins", ctx, ik(len(spec.Steps)))
 			if cfg.FailInsert && rapid.IntRange(0, 5).Draw(t, "ins-fail") == 0 {
 				st.Fail = true
+				failedCreate[len(spec.Steps)] = true
 			} else {
 				inserts = append(inserts, len(spec.Steps))
 			}
@@ -411,6 +413,7 @@ func genTxn(t *rapid.T, m *Model, recent []uint32, cfg TxnCfg) TxnSpec {
 				creating[st.Key] = true
 				if cfg.FailInsert && rapid.IntRange(0, 5).Draw(t, "ins-fail") == 0 {
 					st.Fail = true
+					failedCreate[len(spec.Steps)] = true
 				} else {
 					inserts = append(inserts, len(spec.Steps))
 				}
@@ -469,6 +472,20 @@ func genTxn(t *rapid.T, m *Model, recent []uint32, cfg TxnCfg) TxnSpec {
 			st.Row = uint32(inserts[rapid.IntRange(0, len(inserts)-1).Draw(t, "own")])
 			st.Stores = genStoresCtx(t, m, cfg, 1, 3, "own-st", ctx, ik(int(st.Row)))
 		}
+		// the callback of an operation on an EXISTING row may fail as well (after it has issued its stores; the
+		// body swallows the error): the call reports the error, the stores stay buffered and are committed
+		if cfg.FailInsert && !st.Fail && !failedCreate[len(spec.Steps)] {
+			existing := kind == SUpdate
+			if kind == SUpsertKey || kind == SQueryKey {
+				_, existing = m.KeyOf(st.Key)
+				if kind == SUpsertKey && creating[st.Key] {
+					existing = false
+				}
+			}
+			if existing && rapid.IntRange(0, 7).Draw(t, "callback-fails") == 0 {
+				st.Fail = true
+			}
+		}
 		switch kind {
 		case SUpdate, SInsert, SInsertKey, SUpsertKey, SQueryKey, SOwnUpdate:
 			if cfg.Peeks && len(m.Rows) > 0 && rapid.IntRange(0, 5).Draw(t, "peek") == 0 {
@@ -501,7 +518,7 @@ func genTxn(t *rapid.T, m *Model, recent []uint32, cfg TxnCfg) TxnSpec {
 		// known finding: a failing insert whose error is swallowed by a committing body.
 		// Excluded by construction: the body propagates the error of the first failing insert.
 		for i, st := range spec.Steps {
-			if st.Fail && (spec.FailAt < 0 || spec.FailAt > i) {
+			if st.Fail && failedCreate[i] && (spec.FailAt < 0 || spec.FailAt > i) {
 				CountExcluded(cfg.Prop, "f22-swallowed-insert-failure")
 				spec.FailAt = i
 				break
